@@ -196,6 +196,11 @@ pub struct ServerSpec {
     /// by this file (`get_or_insert` / `existing`).
     #[serde(default, skip_serializing_if = "std::ops::Not::not")]
     pub http: bool,
+    /// the callers of schedule are slow: each schedule future is polled once when the call is made
+    /// and not again before the end of the run (a client busy with something else); the answer
+    /// must wait for it
+    #[serde(default, skip_serializing_if = "std::ops::Not::not")]
+    pub lazy_callers: bool,
 }
 
 #[derive(Clone, Debug)]
@@ -781,6 +786,8 @@ fn run_on_this_thread(spec: &ServerSpec) -> ServerRun {
     let mut decisions = vec![];
     let mut events = 0u64;
     let mut tasks: Vec<tokio::task::JoinHandle<()>> = vec![];
+    type LazyFut = std::pin::Pin<Box<dyn std::future::Future<Output = Result<(), String>>>>;
+    let mut lazy: Vec<(usize, LazyFut)> = vec![];
     let mut stalled = false;
     let mut event_limit = false;
     let mut max_overlap = vec![0usize; n];
@@ -945,6 +952,19 @@ fn run_on_this_thread(spec: &ServerSpec) -> ServerRun {
                         let (status, body) = dispatch(router, "/schedule", true, serde_json::to_vec(&policy).expect("policy")).await;
                         finish_call(&hub2, idx, status == 200, String::from_utf8_lossy(&body).chars().take(300).collect());
                     }));
+                } else if spec.lazy_callers {
+                    let h = get_or_insert(&hub2, &sems2, p, c);
+                    let mut fut: LazyFut = Box::pin(async move { h.schedule(policy).await.map_err(|e| format!("{e:?}")) });
+                    struct Noop;
+                    impl std::task::Wake for Noop {
+                        fn wake(self: Arc<Self>) {}
+                    }
+                    let waker = std::task::Waker::from(Arc::new(Noop));
+                    let mut cx = std::task::Context::from_waker(&waker);
+                    match fut.as_mut().poll(&mut cx) {
+                        std::task::Poll::Ready(r) => finish_call(&hub, idx, r.is_ok(), r.err().unwrap_or_default()),
+                        std::task::Poll::Pending => lazy.push((idx, fut)),
+                    }
                 } else {
                     tasks.push(rt.spawn(async move {
                         let h = get_or_insert(&hub2, &sems2, p, c);
@@ -966,6 +986,12 @@ fn run_on_this_thread(spec: &ServerSpec) -> ServerRun {
             }
             decisions.push(format!("inject #{i}"));
             fire_injection(i, spec, n, &rt, &hub, &sems, &nodes, &mut injections, &mut tasks, &record_call);
+        }
+    }
+    // the slow callers come back for their answers
+    for (idx, fut) in lazy.drain(..) {
+        if let Ok(r) = rt.block_on(async { tokio::time::timeout(Duration::from_millis(5), fut).await }) {
+            finish_call(&hub, idx, r.is_ok(), r.err().unwrap_or_default());
         }
     }
     // final state
